@@ -3,7 +3,7 @@
 # run the quick tier of its property's check against it (scratch copy of /repo), write meta.json.
 VERIF="$(cd "$(dirname "$0")/.." && pwd)"
 cd "$VERIF"
-IDS="$@"; [ -z "$IDS" ] && IDS=$(ls seeded)
+IDS="$@"; [ -z "$IDS" ] && IDS=$(ls seeded | grep "^C")
 for id in $IDS; do
   D="$VERIF/seeded/$id"; P="${id%%-*}"
   ver="$(tools/verify_mutant.sh "$D" 2>&1 | head -1)"
